@@ -1443,20 +1443,72 @@ Qed.
 Corollary reachable_inv : forall ops, Inv (run all_fixed init ops).
 Proof. intros ops. apply trace_safe, init_inv. Qed.
 
+(* variants with the five crash / leak repairs: every operation is outside the defect classes *)
+Definition crash_fixed (fx : fixes) : Prop :=
+  f05 fx = true /\ f06 fx = true /\ f07 fx = true /\ f08 fx = true /\ f70 fx = true.
+
+Lemma benign_crash_fixed : forall fx s o, crash_fixed fx -> benign fx s o.
+Proof.
+  intros fx s [p cfg nf m|t|k] (F5 & F6 & F7 & F8 & F70); cbn [benign]; auto.
+  destruct cfg; [exact I|]. destruct m as [from to b|id ver|[tm|] [ro|]|tm|rid|ro|d]; cbn; auto.
+  - split; left; assumption.
+  - intros id t _. split; left; assumption.
+  - right. split; [auto|]. intros tm _ _. split; left; assumption.
+Qed.
+
+Lemma benign_hist_crash_fixed : forall fx ops s, crash_fixed fx -> benign_hist fx s ops.
+Proof. intros fx ops. induction ops as [|o r IH]; intros s H; cbn; auto using benign_crash_fixed. Qed.
+
+(* the code as it is now: every repair but F71 *)
+Lemma current_base : base_fixed (only 71).
+Proof. repeat split. Qed.
+Lemma current_crash : crash_fixed (only 71).
+Proof. repeat split. Qed.
+
+Theorem current_code_safe : forall ops s,
+  Inv s ->
+  Forall (fun r => r_out r = Ok /\ leaked (r_state r) = [] /\ disciplined (r_events r) = true)
+         (trace (only 71) s ops) /\
+  Inv (run (only 71) s ops).
+Proof.
+  intros ops s I. apply trace_safe_gen; [apply current_base|exact I|apply benign_hist_crash_fixed, current_crash].
+Qed.
+
+Theorem known_tree_stays_gen : forall fx ops s id t,
+  base_fixed fx -> crash_fixed fx -> Inv s ->
+  (forall o, In o ops -> ~ touches o id) ->
+  lookup id (store s) = Some (Have t) ->
+  lookup id (store (run fx s ops)) = Some (Have t).
+Proof.
+  intros fx ops. induction ops as [|o r IH]; intros s id t HB HC I Hn Ht; [exact Ht|].
+  rewrite run_cons.
+  destruct (step_safe_gen fx s o HB I (benign_crash_fixed fx s o HC)) as (_ & I' & _ & K).
+  apply IH; [exact HB|exact HC|exact I'| |].
+  - intros o' Ho'. apply Hn. right. exact Ho'.
+  - apply K; [apply Hn; left; reflexivity|exact Ht].
+Qed.
+
 (* ---- Part 4: the next legitimate operation is served ------------------------------------------ *)
 
 Lemma In_rev_iff : forall A (x : A) l, In x (rev l) <-> In x l.
 Proof. intros. symmetry. apply in_rev. Qed.
 
+Section Serves.
+(* any variant with the repairs F26, F72 and the five crash / leak repairs: in particular
+   the code as it is now ([only 71]) and the fully repaired model *)
+Variable fx : fixes.
+Hypothesis HB : base_fixed fx.
+Hypothesis HC : crash_fixed fx.
+
 Theorem serves_tree_request : forall s p nf id ver t,
   Inv s -> lookup id (store s) = Some (Have t) -> reachable p = true ->
-  let r := step all_fixed s (Recv p false nf (MReqTree id ver)) in
+  let r := step fx s (Recv p false nf (MReqTree id ver)) in
   r_out r = Ok /\
   In (ESend p (if ver =? 0 then RTreeMarshal (t_id t) (ro_id (t_roster t)) (root_node t)
                else RRespTree (t_id t) (ro_id (t_roster t)) (root_node t))) (r_events r).
 Proof.
   intros s p nf id ver t I Ht Hr. pose proof I as (Hl & Hi).
-  edestruct (step_of_returns all_fixed s (Recv p false nf (MReqTree id ver))) as (m' & E & Hx & Hq); [exact I| |].
+  edestruct (step_of_returns fx s (Recv p false nf (MReqTree id ver))) as (m' & E & Hx & Hq); [exact I| |].
   { cbn [run_op process touches]. apply handle_request_tree_returns; [exact Hl|reflexivity]. }
   cbn zeta. rewrite E. cbn [r_out r_events]. split; [reflexivity|].
   apply In_rev_iff. apply (Hq t); assumption.
@@ -1464,12 +1516,12 @@ Qed.
 
 Theorem serves_roster_request : forall s p nf rid i t,
   Inv s -> In (i, Have t) (store s) -> ro_id (t_roster t) = rid -> reachable p = true ->
-  let r := step all_fixed s (Recv p false nf (MReqRoster rid)) in
+  let r := step fx s (Recv p false nf (MReqRoster rid)) in
   r_out r = Ok /\ In (ESend p (RRoster rid)) (r_events r).
 Proof.
   intros s p nf rid i t I Hin Hro Hr. pose proof I as (Hl & Hi).
-  edestruct (step_of_returns all_fixed s (Recv p false nf (MReqRoster rid))) as (m' & E & Hx & Hq); [exact I| |].
-  { cbn [run_op process touches]. apply handle_request_roster_returns; [exact Hl|reflexivity|left; reflexivity]. }
+  edestruct (step_of_returns fx s (Recv p false nf (MReqRoster rid))) as (m' & E & Hx & Hq); [exact I| |].
+  { cbn [run_op process touches]. apply handle_request_roster_returns; [exact Hl|reflexivity|left; apply HC]. }
   cbn zeta. rewrite E. cbn [r_out r_events]. split; [reflexivity|].
   apply In_rev_iff. specialize (Hq Hr). cbn [os] in Hq.
   destruct (find (has_roster rid) (store s)) as [[j e]|] eqn:Ef.
@@ -1483,11 +1535,11 @@ Qed.
 Theorem serves_protocol_message : forall s p nf from k t f,
   Inv s -> lookup (tk_tree k) (store s) = Some (Have t) ->
   will_deliver s t (mkP p from k BPing) f ->
-  let r := step all_fixed s (Recv p false nf (MProto from (Some k) BPing)) in
+  let r := step fx s (Recv p false nf (MProto from (Some k) BPing)) in
   r_out r = Ok /\ In (EDeliver k (tk_node f)) (r_events r).
 Proof.
   intros s p nf from k t f I Ht W. pose proof I as (Hl & Hi).
-  edestruct (step_of_returns all_fixed s (Recv p false nf (MProto from (Some k) BPing))) as (m' & E & Hx & Hq); [exact I| |].
+  edestruct (step_of_returns fx s (Recv p false nf (MProto from (Some k) BPing))) as (m' & E & Hx & Hq); [exact I| |].
   { cbn [run_op process touches]. apply transmit_returns; [repeat split; assumption|discriminate]. }
   cbn zeta. rewrite E. cbn [r_out r_events]. split; [reflexivity|].
   apply In_rev_iff. destruct (Hq k eq_refl) as (Hd & _). apply (Hd t f); assumption.
@@ -1496,17 +1548,18 @@ Qed.
 (* ... on a tree the server does not have: the message is parked and its sender is
    asked for the tree (also when the tree was requested before from other peers) *)
 Theorem asks_sender_for_tree : forall s p nf from k b,
+  f71 fx = true ->
   Inv s -> b <> BGarbage -> reachable p = true ->
   (lookup (tk_tree k) (store s) = None \/
    exists asked, lookup (tk_tree k) (store s) = Some (Req asked) /\ mem_nat p asked = false) ->
-  let r := step all_fixed s (Recv p false nf (MProto from (Some k) b)) in
+  let r := step fx s (Recv p false nf (MProto from (Some k) b)) in
   r_out r = Ok /\
   In (ESend p (RReqTree (tk_tree k))) (r_events r) /\
   In (mkP p from k b) (parked (r_state r)) /\
   exists asked', lookup (tk_tree k) (store (r_state r)) = Some (Req asked').
 Proof.
-  intros s p nf from k b I Hb Hr Hs. pose proof I as (Hl & Hi).
-  edestruct (step_of_returns all_fixed s (Recv p false nf (MProto from (Some k) b))) as (m' & E & Hx & Hq); [exact I| |].
+  intros s p nf from k b H71 I Hb Hr Hs. pose proof I as (Hl & Hi).
+  edestruct (step_of_returns fx s (Recv p false nf (MProto from (Some k) b))) as (m' & E & Hx & Hq); [exact I| |].
   { cbn [run_op process touches].
     destruct b; [| |contradiction]; (apply transmit_returns; [repeat split; assumption|discriminate]). }
   cbn zeta. rewrite E. cbn [r_out r_events r_state]. split; [reflexivity|].
@@ -1514,31 +1567,33 @@ Proof.
   destruct (Hq' k eq_refl) as (_ & Hp).
   destruct Hp as (Hpark & Hask).
   { intros t Ht. cbn [os] in Ht. destruct Hs as [Hs|(a & Hs & _)]; rewrite Hs in Ht; discriminate. }
-  destruct (Hask eq_refl Hr Hs) as (Hsend & Hreq).
+  destruct (Hask H71 Hr Hs) as (Hsend & Hreq).
   split; [apply In_rev_iff; exact Hsend|]. split; assumption.
 Qed.
 
 (* ... and when the requested tree arrives, the parked message reaches the handler and
    the tree is stored as it was sent *)
 Theorem serves_after_tree_arrives : forall s p nf tm ro t pm f asked,
-  Inv s -> tm_tree tm <> 0 -> make_tree all_fixed tm ro = MTOk t ->
+  Inv s -> tm_tree tm <> 0 -> make_tree fx tm ro = MTOk t ->
   lookup (t_id t) (store s) = Some (Req asked) ->
   filter (fun pm => tk_tree (p_to pm) =? t_id t) (parked s) = [pm] ->
   will_deliver s t pm f ->
-  let r := step all_fixed s (Recv p false nf (MRespTree (Some tm) (Some ro))) in
+  let r := step fx s (Recv p false nf (MRespTree (Some tm) (Some ro))) in
   r_out r = Ok /\
   lookup (t_id t) (store (r_state r)) = Some (Have t) /\
   In (EDeliver (p_to pm) (tk_node f)) (r_events r).
 Proof.
   intros s p nf tm ro t pm f asked I Hz Hm Hreq Hf W. pose proof I as (Hl & Hi).
-  edestruct (step_of_returns all_fixed s (Recv p false nf (MRespTree (Some tm) (Some ro)))) as (m' & E & Hx & Hq); [exact I| |].
+  edestruct (step_of_returns fx s (Recv p false nf (MRespTree (Some tm) (Some ro)))) as (m' & E & Hx & Hq); [exact I| |].
   { cbn [run_op process touches].
-    apply handle_send_tree_returns; try reflexivity; [exact Hl|exact Hi|].
-    intros tm' ro' _ _. unfold benign_mk. cbn. auto. }
+    apply handle_send_tree_returns; try reflexivity; [apply HB|exact Hl|exact Hi|].
+    intros tm' ro' _ _. destruct HC as (_ & F6 & _ & _ & F70). split; left; assumption. }
   cbn zeta. rewrite E. cbn [r_out r_events r_state]. split; [reflexivity|].
   destruct (Hq tm ro t pm f eq_refl eq_refl Hz Hm (ex_intro _ asked Hreq) Hf W) as (Hs & Hd).
   split; [apply Hs; intros []|apply In_rev_iff; exact Hd].
 Qed.
+
+End Serves.
 
 (* ---- Part 5: the unrepaired variants -------------------------------------------------------- *)
 
